@@ -63,6 +63,14 @@ def corpus():
     # a response that triggers the refresh: load_metadata answered by a broker that is no longer in the cluster
     out.append((CFG0, [up, ("send", 2, True, -1), ("op", 1, True), ("ok", 0), ("ok", 1),
                        ("reply", 1, 2, L.meta_payload([(2, 6)], [1, 2])), ("close",), ("lost", 0), ("lost", 1)] + late))
+    # _load_topic_partitions (F-C20-3, repaired): in its retry back-off at close(); retrying after the back-off; on a known broker
+    bad = L.meta_payload([], [5])
+    out.append((CFG0, [("op", 2, False), ("bootok", 0), ("bootreply", 0, 1, bad), ("close",)] + late))
+    out.append((CFG0, [("op", 2, False), ("bootok", 0), ("bootreply", 0, 1, bad), ("timer", 1), ("bootok", 1),
+                       ("bootreply", 1, 2, L.meta_payload([(1, 5)], [0])), ("op", 2, False), ("ok", 0),
+                       ("reply", 0, 3, L.meta_payload([(1, 5)], [0, 6])), ("close",), ("lost", 0)] + late))
+    out.append((CFG0, [up, ("op", 2, True), ("ok", 0), ("reply", 0, 1, L.meta_payload([(1, 5), (2, 6)], [4])), ("op", 2, False),
+                       ("timer", 1), ("close",), ("lost", 0)] + late))
     # timers armed at close; second close
     out.append((dict(CFG0, dot=True), [up, ("send", 1, True, -1), ("send", 1, True, 30000), ("ok", 0), ("timer", 0),
                                        ("close",), ("close",), ("lost", 0), ("timer", 1)] + late))
@@ -72,7 +80,7 @@ def corpus():
 def small_alphabet():
     return [("send", 1, True, -1), ("op", 1, True), ("op", 0, False), ("ok", 0), ("fail", 0), ("lost", 0),
             ("reply", 0, 1, L.meta_payload([(1, 5)], [0])), ("timer", None), ("close",), ("bootok", 0), ("bootfail", 0),
-            ("bootlost", 0), ("update", [(2, 6)], True)]
+            ("bootlost", 0), ("update", [(2, 6)], True), ("op", 2, False), ("bootreply", 0, 1, L.meta_payload([], [5]))]
 
 
 def enumerate_small(depth, limit):
@@ -270,7 +278,7 @@ def run(ck):
                       "connecting, backing off, requests in flight on several brokers, brokers being closed by a refresh, operations on the "
                       "last / an earlier known broker, timers armed, second close; each followed by late events and new work) + seeded "
                       "state-aware generator with close() forced at a random point in two thirds of the histories + every sequence of enabled "
-                      "events over a 13-event alphabet up to the stated depth.  Non-trivial: a request/operation was resolved or the close "
+                      "events over a 15-event alphabet up to the stated depth.  Non-trivial: a request/operation was resolved or the close "
                       "Deferred fired; distinct = distinct case lines.")
     ck.assumptions += [
         "hand-written Gallina model Model/ClientReq.v stands for afkak/client.py:368-392, 897-987, 1028-1229, 468-527 composed with Model/BrokerClient.v "
